@@ -16,8 +16,21 @@ type cardSpec [][]string // each: key, v1, v2...
 func buildCard(cs cardSpec) vcard.Card {
 	c := make(vcard.Card)
 	for _, kv := range cs {
-		for _, v := range kv[1:] {
-			c[kv[0]] = append(c[kv[0]], &vcard.Field{Value: v})
+		for i, v := range kv[1:] {
+			f := &vcard.Field{Value: v}
+			// parameters and groups say nothing to a filter without param-filters (the model is not told): later
+			// instances marked preferred, typed instances, grouped instances
+			switch (len(kv[0]) + 2*i + len(v)) % 4 {
+			case 0:
+				if i > 0 {
+					f.Params = vcard.Params{"PREF": {"1"}}
+				}
+			case 1:
+				f.Params = vcard.Params{"TYPE": {"home", "pref"}}
+			case 2:
+				f.Group = "item" + itoa(i)
+			}
+			c[kv[0]] = append(c[kv[0]], f)
 		}
 		if len(kv) == 1 {
 			c[kv[0]] = nil
